@@ -47,3 +47,36 @@ mod c15;
 mod c16;
 #[cfg(kani)]
 mod c19;
+
+/// Native replay only (`cargo kani playback` builds this crate as a test binary): a global
+/// allocator that records the largest single request, so that the allocation cap asserted by the
+/// C04 stubs under verification is observable when a counterexample is replayed against the real code.
+#[cfg(test)]
+pub mod native_alloc {
+    use std::alloc::{GlobalAlloc, Layout, System};
+    use std::sync::atomic::{AtomicUsize, Ordering::Relaxed};
+    static MAX: AtomicUsize = AtomicUsize::new(0);
+    pub struct Recording;
+    unsafe impl GlobalAlloc for Recording {
+        unsafe fn alloc(&self, l: Layout) -> *mut u8 {
+            MAX.fetch_max(l.size(), Relaxed);
+            System.alloc(l)
+        }
+        unsafe fn alloc_zeroed(&self, l: Layout) -> *mut u8 {
+            MAX.fetch_max(l.size(), Relaxed);
+            System.alloc_zeroed(l)
+        }
+        unsafe fn realloc(&self, p: *mut u8, l: Layout, n: usize) -> *mut u8 {
+            MAX.fetch_max(n, Relaxed);
+            System.realloc(p, l, n)
+        }
+        unsafe fn dealloc(&self, p: *mut u8, l: Layout) {
+            System.dealloc(p, l)
+        }
+    }
+    #[global_allocator]
+    static A: Recording = Recording;
+    pub fn max_request() -> usize {
+        MAX.load(Relaxed)
+    }
+}
